@@ -42,8 +42,15 @@ OctEnc == { X(OctKey(n, v, NONE, NONE), E0 @@ [extra |-> x]) : n \in OctLens, v 
           \cup { X(OctKey(48, "a", "HS384", "kx"), E0 @@ [extra |-> TypedExtras]) }
           \cup { X(OctKey(n, v, NONE, NONE), E0 @@ [extra |-> <<>>]) : n \in {32, 33, 64},
                   v \in {"a.end0a", "a.end00", "a.end20", "a.beg00", "a.begff", "a.end3d"} }
+\* key_ops: every operation alone, every pair, every set of seven, a repeated name, the reverse order
+AllOps == <<"sign", "verify", "encrypt", "decrypt", "wrapKey", "unwrapKey", "deriveKey", "deriveBits">>
+OpsLists == { <<AllOps[i]>> : i \in 1..8 } \cup { <<AllOps[i], AllOps[j]>> : i \in 1..8, j \in 1..8 }
+            \cup { [j \in 1..7 |-> AllOps[IF j < i THEN j ELSE j + 1]] : i \in 1..8 }
+            \cup { [j \in 1..8 |-> AllOps[9 - j]] }
+OpsKds == { X(WithMeta(k, [alg |-> NONE, kid |-> "ops", use |-> NONE, ops |-> o], NONE), E0 @@ [extra |-> <<>>]) :
+              k \in { OctKey(32, "a", NONE, NONE), AsymKey("p256a", 0, NONE, NONE), AsymKey("ed25519a", 1, NONE, NONE) }, o \in OpsLists }
 Plain(k) == k.kid = NONE /\ k.use = NONE /\ k.ops = <<>> /\ k.alg = NONE
-Kds == AsymMeta \cup AsymEnc \cup OctMeta \cup OctEnc
+Kds == AsymMeta \cup AsymEnc \cup OctMeta \cup OctEnc \cup OpsKds
 
 L(via, doc, kds) == [op |-> "Load", ring |-> 0, via |-> via, doc |-> doc, keys |-> kds]
 \* history: a defective key imported earlier - in the same set, or by an earlier call - must not change
